@@ -503,6 +503,18 @@ class Core(composites.Composite):
         """
         from armi.reactor.reactors import Reactor
 
+        # refuse before anything is changed: the assembly must not end up as a child of the core
+        # (renumbered, without a place in the location table) when its location is taken
+        requestedLocator = spatialLocator or a.spatialLocator
+        if (
+            requestedLocator is not None
+            and requestedLocator in self.childrenByLocator
+        ):
+            raise ValueError(
+                "Cannot add {} because location {} is already filled by {}."
+                "".format(a, requestedLocator, self.childrenByLocator[requestedLocator])
+            )
+
         # Negative assembly IDs are placeholders, and we need to renumber the assembly
         if a.p.assemNum < 0:
             # Blocks this core already knows (e.g. stationary blocks left in place by a discharge
@@ -526,14 +538,6 @@ class Core(composites.Composite):
         aName = a.getName()
 
         spatialLocator = spatialLocator or a.spatialLocator
-
-        if spatialLocator is not None and spatialLocator in self.childrenByLocator:
-            raise ValueError(
-                "Cannot add {} because location {} is already filled by {}."
-                "".format(
-                    aName, a.spatialLocator, self.childrenByLocator[a.spatialLocator]
-                )
-            )
 
         if spatialLocator is not None:
             # transfer spatialLocator to Core one
